@@ -6,6 +6,7 @@ import CM.Ops.Render
 import CM.Ops.Emph
 import CM.Ops.Refs
 import CM.Ops.Doc
+import CM.Ops.Format
 namespace CM.Ops
 
 def echoOp : Op
@@ -18,6 +19,6 @@ def treeOp : Op
     | none => bad
   | _ => bad
 
-def allOps : List (String × Op) := [("echo", echoOp), ("tree", treeOp)] ++ recognizeOps ++ checkOps ++ walkOps ++ renderOps ++ emphOps ++ refsOps ++ docOps
+def allOps : List (String × Op) := [("echo", echoOp), ("tree", treeOp)] ++ recognizeOps ++ checkOps ++ walkOps ++ renderOps ++ emphOps ++ refsOps ++ docOps ++ formatOps
 
 end CM.Ops
